@@ -81,6 +81,13 @@ func (ex *Executor) evalInvariants(st *State, fr *frame, b *ssa.BasicBlock, lc *
 	for _, c := range lc.Invs {
 		env := ex.loopEnv(st)
 		for k, v := range vars {
+			// a loop variable that shadows a parameter (the parameter is reassigned in the
+			// loop): the entry value stays reachable as <name>0
+			if pv, shadows := env.vars[k]; shadows {
+				if _, taken := env.vars[k+"0"]; !taken {
+					env.vars[k+"0"] = pv
+				}
+			}
 			env.vars[k] = v
 		}
 		snap := st.Clone()
@@ -100,6 +107,13 @@ func (ex *Executor) assumeInvariants(st *State, fr *frame, b *ssa.BasicBlock, lc
 	for _, c := range lc.Invs {
 		env := ex.loopEnv(st)
 		for k, v := range vars {
+			// a loop variable that shadows a parameter (the parameter is reassigned in the
+			// loop): the entry value stays reachable as <name>0
+			if pv, shadows := env.vars[k]; shadows {
+				if _, taken := env.vars[k+"0"]; !taken {
+					env.vars[k+"0"] = pv
+				}
+			}
 			env.vars[k] = v
 		}
 		env.scratch = st
@@ -202,6 +216,30 @@ func (ex *Executor) havocLoop(st *State, fr *frame, h *ssa.BasicBlock) {
 				}
 				if fn, ok := c.Value.(*ssa.Function); ok && ex.Prog.inRepo(fn) {
 					callsInRepo = true
+				}
+				// a map handed to a callee (url.Values.Set/Add/Del, a helper that fills it):
+				// the callee may update it, so its content is forgotten like after a MapUpdate
+				for _, a := range c.Args {
+					if _, isMap := a.Type().Underlying().(*types.Map); !isMap {
+						continue
+					}
+					if mv, ok := ex.get(st, fr, a).(*MapV); ok {
+						if md, ok := st.Cells[mv.Cell].(*MapData); ok {
+							st.Cells[mv.Cell] = &MapData{Base: ex.Fresh("loop.map", SInt), T: md.T}
+						}
+					}
+				}
+				// likewise a pointer to a local handed to a callee: what it points to may be
+				// written by the callee (the scan of the loop's own blocks does not see that)
+				for _, a := range c.Args {
+					if _, isPtr := a.Type().Underlying().(*types.Pointer); !isPtr {
+						continue
+					}
+					if p, ok := ex.get(st, fr, a).(*PtrV); ok && len(p.Path) == 0 {
+						if old := st.Cells[p.Cell]; old != nil {
+							st.Cells[p.Cell] = ex.havocLike(st, old, nil, fmt.Sprintf("loop.cell%d", p.Cell))
+						}
+					}
 				}
 				if b, ok := c.Value.(*ssa.Builtin); ok && (b.Name() == "append" || b.Name() == "delete" || b.Name() == "copy") {
 					// appends produce new values (phis); delete/copy mutate
